@@ -443,9 +443,16 @@ class World:
             here = os.getcwd()
         rel = os.path.relpath(path, here)
         modes = ["init-abs", "init-rel"] if first else ["ctor-abs", "get-abs", "get-rel", "ctor-rel", "ctor-rel", "dotdot",
-                                                         "slash", "init-rel", "rel-slash"]
+                                                         "slash", "init-rel", "rel-slash", "ctor-none", "get-none"]
         mode = self.prov_rng.choice(modes)
         self.prov_log.append([name, mode, os.path.relpath(os.getcwd(), os.path.dirname(self.root))])
+        if mode in ("ctor-none", "get-none"):
+            # no path argument at all: the project of the current working directory (Project.__init__: path = os.getcwd())
+            os.chdir(path)
+            try:
+                return signac.Project() if mode == "ctor-none" else signac.get_project()
+            finally:
+                os.chdir(here)
         if mode == "init-abs":
             return signac.init_project(path=path)
         if mode == "init-rel":
